@@ -512,7 +512,7 @@ class DFlags(Plugin):
 
 class AFlags(Plugin):
     """allocation typestate: every malloc/calloc/realloc result is null-checked before it is dereferenced and freed on every path"""
-    inline_depth = 0
+    inline_depth = 1          # small file-local helpers (a `release(a, b)` extracted from several exits) are followed, nothing else
 
     def init(s, eng):
         s.prog = eng.prog
@@ -521,7 +521,8 @@ class AFlags(Plugin):
         return (frozenset(), frozenset())        # ({(alloc root, status)}, {violation tokens})
 
     def no_inline(s, fn):
-        return True
+        # file-local, small, loop-free helpers that allocate or release (a `release(a, b)` extracted from several exits) are followed
+        return not (fn.internal and len(fn.j["blocks"]) <= 12 and not fn.loops and any(c.get("callee") in ("free", "malloc", "calloc", "realloc") for c in fn.calls()))
 
     @staticmethod
     def _set(allocs, root, status):
